@@ -133,6 +133,8 @@ def errOK (s : Str) (line : String) : List Viol :=
       (t.length < sc.length && (List.range (sc.length - t.length + 1)).any fun i => Str.slice sc i (i + t.length) == t)
     let srcCtx := if src == s then "" else
       if src == s ++ ['\n'] then "+added-newline"
+      -- (a later part's source is a suffix, a nested parser's lies inside a word: never a proper prefix)
+      else if src.isPrefixOf s then "+prefix"
       else if isSub src then "+substring"
       else if src.getLast? == some '\n' && isSub src.dropLast then "+substring+added-newline"
       else "+other"
